@@ -122,6 +122,14 @@ package bttest
 // A leveldbRows always has an open DB and a re-open function (established by Create/Open, re-established by Clear).
 //@ typeinv nonnil leveldbRows.db
 //@ typeinv nonnil leveldbRows.newFunc
+// The function stored in leveldbRows.newFunc (re)opens the table's database; with nuke set it returns a database from
+// which every earlier content was removed (this is what Clear relies on). Every closure stored into the field is
+// verified against this contract; Clear's call through the field uses it.
+//@ funcfield leveldbRows.newFunc
+//@   property C08 C14 C17
+//@   modifies ghost(fsOps)
+//@   ensures result != nil && fresh(result)
+//@   ensures nuke ==> ufb_dbWiped(result)
 
 // Get of *leveldbRows has no contract of its own: govc verifies it against the Rows interface contract
 // (bttest_ifaces.spec). The other methods repeat the interface clauses and add the C08 / C17 postconditions.
@@ -175,6 +183,7 @@ package bttest
 //@   property C17 C01 C06 C08 C20
 //@   modifies rows.db, ghost(dbOps), ghost(fsOps)
 //@   ensures dbOps == old(dbOps) + 1 && uf_dbOpKind(dbOps) == 3 && ufb_dbOpOK(dbOps)
+//@   ensures rows.db != nil && ufb_dbWiped(rows.db)
 
 // Ghost trace of leveldb write operations (see area_btstores.spec): operation n has kind uf_dbOpKind(n)
 // (1 Put, 2 Delete, 3 Close), key ufb_dbOpKey(n, k), success ufb_dbOpOK(n).
@@ -204,6 +213,7 @@ package bttest
 //@ func newMemDb
 //@   property C17 C20
 //@   ensures result != nil && fresh(result)
+//@   ensures ufb_dbWiped(result)
 
 //@ func (f LeveldbMemStorage) Create
 //@   property C17 C08 C14
@@ -239,6 +249,7 @@ package bttest
 //@   ensures !nuke ==> fsOps == old(fsOps) + 1
 //@   ensures nuke ==> ufb_fsOpOK(old(fsOps) + 1)   // C08/C17: a nuked (cleared / re-created) table is really empty when this returns
 //@   ensures uf_fsOpKind(fsOps) == 5 && ufs_fsOpPath(fsOps) == path
+//@   ensures nuke ==> ufb_dbWiped(result)
 
 // SetTableMeta: MkdirAll(dir); WriteFile(dir.table.proto.tmp, Marshal(tbl)); Rename(tmp, dir.table.proto), in
 // that order and nothing else; the final file is only ever replaced by the rename of a completely written file.
